@@ -11,6 +11,10 @@ S: oracle = AOSP ResTable_config packing written on a 16-bit field view (shares 
    keyword-constructed - through a seeded sequence of set_language_and_region / direct `.locale` writes /
    queries: after every step the reported string must be the one most recently encoded and must re-encode
    to the current word (the model is a pure function of the word, hence history-independent).
+   A third stream ('siblings') parses small resources.arsc files (harness/arscwriter.py) whose packages have
+   several type chunks with equal and with different ResTable_configs, re-targets the configuration of some
+   chunks with the public setter / `.locale` writes and queries ALL chunks: an untouched chunk must keep
+   reporting the locale its own bytes encode, a touched one its most recent value.
 The model and theorems describe the code with fixes/C30-pack-three-letter-locale.diff applied."""
 import io
 import itertools
@@ -28,6 +32,9 @@ PINS = [
     ("androguard/core/axml/__init__.py", "ARSCResTableConfig.get_language_and_region"),
     ("androguard/core/axml/__init__.py", "ARSCResTableConfig.get_qualifier"),
     ("androguard/core/axml/__init__.py", "ARSCResTableConfig.get_config_name_friendly"),
+    ("androguard/core/axml/__init__.py", "ARSCResType.__init__"),
+    ("androguard/core/axml/__init__.py", "ARSCParser.__init__"),
+    ("androguard/core/axml/__init__.py", "PackageContext.__init__"),
 ]
 
 LOWER = [chr(c) for c in range(97, 123)]
@@ -298,6 +305,128 @@ def history_stream(ck: Check, real: Real, drv, pairs):
                     "(pure functions of the locale word) is history-independent, so any dependence of a reply on earlier "
                     "operations or on the object's origin is a divergence")
 
+
+# ----------------------------------------------------------------- sibling chunks of a parsed table
+def sibling_table(rng, pool):
+    """a small table: 1-2 packages, 2-4 types, 2-5 chunks per type, locales drawn from a small pool so that
+    chunks of different types (and sometimes of the same type) carry EQUAL configurations.
+    Returns (arsc bytes, chunks) with chunks = [(package, type, language, region, only_locale)] in file order."""
+    from harness import arscwriter as W
+    locs = [("", "")] + [pool[rng.randrange(len(pool))] for _ in range(rng.randrange(2, 5))]
+    pkgs, chunks = [], []
+    for pi in range(rng.choice((1, 1, 2))):
+        pname = f"com.verif.p{pi}"
+        types = []
+        for tname in rng.sample(["string", "layout", "drawable", "color", "dimen", "bool"], rng.randrange(2, 5)):
+            tcs = []
+            for _ in range(rng.randrange(2, 6)):
+                l, r = rng.choice(locs)
+                extra = rng.random() < 0.2
+                cfg = W.Config(language=l, region=r, sdk=rng.choice((21, 26)) if extra else 0)
+                tcs.append(W.TypeChunk(cfg, {0: W.Entry(key=f"k_{tname}", value=W.Raw(W.TYPE_INT_DEC, rng.randrange(1000)))}))
+                chunks.append((pname, tname, l, r, not extra))
+            types.append(W.ResType(tname, 1, tcs))
+        pkgs.append(W.Package(0x7F - pi, pname, types))
+    data = W.encode_arsc(W.ResTable(pkgs), config_size=rng.choice((28, 36, 48, 52, 64)),
+                         global_utf8=rng.random() < 0.5, type_utf8=rng.random() < 0.5, key_utf8=rng.random() < 0.5)
+    return data, chunks
+
+
+def parsed_chunk_configs(real: Real, data: bytes):
+    arsc = real.axml.ARSCParser(data)
+    out = []
+    for pname in arsc.get_packages_names():
+        for x in arsc.packages[pname]:
+            if isinstance(x, real.axml.ARSCResType):
+                out.append((pname, x.get_type(), x))
+    return arsc, out
+
+
+def run_siblings(real: Real, data: bytes, chunks, ops, trace=None):
+    """Oracle state: one (word, text) per chunk, initially what the generator encoded into that chunk's
+    ResTable_config; a set/write changes the state of the addressed chunk only.
+    Returns None or (step, what, expected, observed)."""
+    try:
+        arsc, got = parsed_chunk_configs(real, data)
+    except Exception as e:  # noqa
+        return (-1, "parsing the table raises", "a table", type(e).__name__)
+    if [(p, t) for p, t, _ in got] != [(c[0], c[1]) for c in chunks]:
+        return (-1, "the parsed type chunks are not the generated ones", [(c[0], c[1]) for c in chunks], [(p, t) for p, t, _ in got])
+    state = [(aosp_word(c[2], c[3]), dir_name(c[2], c[3]) if c[2] else "\x00\x00") for c in chunks]
+    for i, op in enumerate(ops):
+        try:
+            if op[0] == "set":
+                text = dec(op[2])
+                got[op[1]][2].config.set_language_and_region(text)
+                state[op[1]] = (aosp_word(*split_text(text)), text)
+            elif op[0] == "write":
+                got[op[1]][2].config.locale = op[2]
+                state[op[1]] = (op[2], dec(op[3]))
+            else:
+                for j, (pname, tname, rt) in enumerate(got):
+                    word, want = state[j]
+                    rep = rt.config.get_language_and_region()
+                    if trace is not None:
+                        trace.append((f"get {word}", enc(rep)))
+                    if rep != want:
+                        return (i, f"chunk {j} ({pname} {tname}/{dir_name(chunks[j][2], chunks[j][3]) or 'default'}) reports a locale "
+                                   "that is neither encoded in its ResTable_config nor assigned to it", want, rep)
+                    if chunks[j][4]:
+                        q, wq = rt.config.get_qualifier(), ("" if word == 0 else want)
+                        if q != wq:
+                            return (i, f"chunk {j} ({pname} {tname}) get_qualifier", wq, q)
+        except Exception as e:  # noqa
+            return (i, f"{op[0]} raises", "no exception", type(e).__name__)
+    return None
+
+
+def siblings_stream(ck: Check, real: Real, drv, pairs):
+    rng = ck.rng
+    deep = (not ck.quick) or getattr(ck, "escalated", False)
+    n = 6000 if deep else 400
+    pool = [pairs[rng.randrange(len(pairs))] for _ in range(40)] + [("fil", "PH"), ("es", "419"), ("de", "AT"), ("fr", "CA"), ("en", "")]
+    pool = [(l, r) for l, r in pool if all(32 < ord(ch) < 127 for ch in l + r)]     # the writer takes ASCII codes
+    dist = {"sib_tables": 0, "sib_chunks": 0, "sib_equal_config_pairs": 0, "sib_mutations": 0, "sib_queries": 0}
+    trace, nbad, distinct = [], 0, set()
+    for _ in range(n):
+        data, chunks = sibling_table(rng, pool)
+        ops = [["query"]]
+        for _ in range(rng.randrange(1, 6)):
+            j = rng.randrange(len(chunks))
+            l, r = rng.choice(pool)
+            if rng.random() < 0.7:
+                ops.append(["set", j, enc(dir_name(l, r))])
+            else:
+                ops.append(["write", j, aosp_word(l, r), enc(dir_name(l, r))])
+            ops.append(["query"])
+        dist["sib_tables"] += 1
+        dist["sib_chunks"] += len(chunks)
+        keyed = [(c[0], c[2], c[3], c[4]) for c in chunks]
+        dist["sib_equal_config_pairs"] += sum(keyed.count(k) - 1 for k in set(keyed) if k[3])
+        dist["sib_mutations"] += sum(1 for o in ops if o[0] != "query")
+        dist["sib_queries"] += sum(1 for o in ops if o[0] == "query") * len(chunks)
+        distinct.add(("s", data, json.dumps(ops)))
+        bad = run_siblings(real, data, chunks, ops, trace)
+        if bad and nbad < 3:
+            nbad += 1
+            small = ops[: bad[0] + 1] if bad[0] >= 0 else ops
+            i = 0
+            while i < len(small) - 1:
+                cand = small[:i] + small[i + 1:]
+                if run_siblings(real, data, chunks, cand):
+                    small = cand
+                else:
+                    i += 1
+            b2 = run_siblings(real, data, chunks, small) or bad
+            ck.fail({"siblings": {"hex": data.hex(), "chunks": [list(c) for c in chunks], "ops": small}, "step": b2[0]},
+                    "type chunks of one parsed table: " + b2[1], None, b2[2], b2[3])
+    reqs = [t[0] for t in trace]
+    ck.compare("locale-siblings", reqs, [t[1] for t in trace], drv.ask(reqs))
+    ck.cover(evaluations=n, distinct=distinct, dist=dist,
+             samples=[{"siblings": "string/de-rAT and layout/de-rAT parsed; set(string/de-rAT, 'fr-rCA'); query all", "expect": "layout/de-rAT still de-rAT"}])
+    ck.notes.append("siblings stream: every type chunk of a parsed table is judged against the locale encoded in its own "
+                    "ResTable_config (or its own most recent assignment); whether chunks share objects is not judged")
+
 # ----------------------------------------------------------------- run
 def corpus_cases():
     d = os.path.join(VERIF, "corpus", "C30")
@@ -361,6 +490,7 @@ def run(ck: Check):
 
     # ---- S/T: histories on one object
     history_stream(ck, real, drv, pairs)
+    siblings_stream(ck, real, drv, pairs)
 
     # ---- T: correspondence
     reqs, rr = [], []
@@ -432,7 +562,20 @@ def run(ck: Check):
 def replay(ck: Check, rp):
     real = Real()
     c = rp.get("case") or rp.get("first_divergence") or {}
-    print("replay", {k: v for k, v in c.items() if k != "history"})
+    print("replay", {k: v for k, v in c.items() if k not in ("history", "siblings")})
+    if "siblings" in c:
+        sb = c["siblings"]
+        chunks = [tuple(x) for x in sb["chunks"]]
+        for j, ch in enumerate(chunks):
+            print(f"  chunk {j}: {ch[0]} {ch[1]} locale {dir_name(ch[2], ch[3]) or 'default'!r}")
+        for i, op in enumerate(sb["ops"]):
+            print(f"  step {i}:", op[0], ("chunk %d <- %r" % (op[1], dec(op[2] if op[0] == "set" else op[3]))) if op[0] != "query" else "all chunks")
+        bad = run_siblings(real, bytes.fromhex(sb["hex"]), chunks, sb["ops"])
+        if bad:
+            print(f"FAILS at step {bad[0]}: {bad[1]}; expected {bad[2]!r}, observed {bad[3]!r}")
+            return 1
+        print("property holds on this history")
+        return 0
     if "history" in c:
         h = c["history"]
         table = {int(w): dec(t) for w, t in h["table"].items()}
